@@ -290,8 +290,9 @@ pub fn run(tier: Tier) -> Report {
                         if c.contains("refused") {
                             rep.guard("some write after the end was refused", true);
                         }
+                        // (how many chunks one write emits is the implementation's choice: recorded, not required)
                         if c.contains("chunks=2") || c.contains("chunks=3") {
-                            rep.guard("some write emitted several chunks", true);
+                            rep.extra("some_write_emitted_several_chunks", json!(true));
                         }
                     }
                     rep.sample(json!({"front": front, "reachable_states": ex.states, "sample_trace_(input_len,buffer_len)": ex.state_traces.last().map(|t| format!("{:?}", t.0))}));
@@ -304,7 +305,7 @@ pub fn run(tier: Tier) -> Report {
     for p in parts {
         rep.merge(p);
     }
-    for gname in ["terminator emitted in some transition", "some finishing write did not fit", "some write after the end was refused", "some write emitted several chunks"] {
+    for gname in ["terminator emitted in some transition", "some finishing write did not fit", "some write after the end was refused"] {
         rep.guard(gname, false);
     }
     rep.extra("grid_inputs", json!(g.is.len()));
